@@ -221,6 +221,9 @@ func genCallOp(r *simrt.Rand, big *int) Op {
 		op.Flags |= FlEmpty // zero-length reply body under pb / bytes
 		op.Rep = 0
 	}
+	if op.Kind == "go" && r.Chance(1, 4) {
+		op.NilDone = true
+	}
 	return op
 }
 
